@@ -141,6 +141,7 @@ func ReadFile(r io.Reader) (File, []string, error) {
 		}
 		nextCommentLines = []string{}
 		nextRecordOpCode = 0
+		nextRecordBitFlags = false
 	}
 	return f, warnings, nil
 }
